@@ -3,7 +3,7 @@
 (comparison/boundary/boolean operator, +-1, true/false, comparator identifier swap) inside the given line ranges of /repo,
 keeps variants that still compile, runs all checks and lists variants on which every check stays silent. Silent variants are
 reviewed by hand: harmless, test-visible, or a missing rule.
-usage: opmut_sweep.py <outlog> [workers]"""
+usage: opmut_sweep.py <outlog> [workers]   (OPMUT_SAMPLE=n OPMUT_SEED=k: random sample of n mutation sites)"""
 import subprocess, sys, os, tempfile, shutil, re
 from concurrent.futures import ThreadPoolExecutor
 REPO='/repo'
@@ -33,10 +33,13 @@ for f,a,b in targets:
                 new=l[:m.start()]+rep+l[m.end():]
                 if new!=l: items.append((f,i,new,'%s->%s#%d'%(m.group(0),rep,k)))
 n=int(sys.argv[2]) if len(sys.argv)>2 else 4
+import random
+if os.environ.get('OPMUT_SAMPLE'):
+    random.seed(int(os.environ.get('OPMUT_SEED','1'))); random.shuffle(items); items=items[:int(os.environ['OPMUT_SAMPLE'])]
 chunks=[items[i::n] for i in range(n)]
 def work(chunk):
     res=[]
-    base=tempfile.mkdtemp(prefix='opm-')
+    base=tempfile.mkdtemp(prefix='opm-',dir=os.environ.get('OPMUT_TMP','/tmp'))
     subprocess.check_call('cd %s && git ls-files -z | xargs -0 cp --parents -t %s'%(REPO,base),shell=True)
     for f,i,new,tag in chunk:
         lines=open(os.path.join(REPO,f)).read().split('\n')
@@ -48,6 +51,7 @@ def work(chunk):
             viol=sorted(set(re.findall(r'VIOLATION property=(C\d\d)',rr.stdout)))
             t='SILENT' if rr.returncode==0 else ('VIOL' if viol else 'UNDEC')
             res.append('%s %s:%d [%s]  %s   viol=%s'%(t,f,i+1,tag,new.strip()[:110],','.join(viol)))
+            open(sys.argv[1]+'.part','a').write(res[-1]+'\n')
         open(p,'w').write('\n'.join(lines))
     shutil.rmtree(base,ignore_errors=True)
     return res
